@@ -83,3 +83,4 @@ contract(
     ],
     raises={"TemplateNotFoundError": None},
 )
+
